@@ -218,6 +218,40 @@ def layered_grammar(rng, derive=True):
     return items
 
 
+def sequence_grammar(rng, derive=True):
+    """Top -> P1 P2 .. Pk [t]: a run of 2-4 adjacent nonterminals (then usually one more symbol); every Pi has 1-3
+    alternatives that are short terminal strings, often prefixes of one another, some Pi nullable.  The reduce
+    lookaheads of the alternatives of Pi are FIRST(P(i+1) ..) exactly: one terminal too many gives a spurious
+    shift/reduce conflict with the longer alternative, one too few loses a sentence."""
+    k = rng.randint(2, 4)
+    nts = [f"P{i}" for i in range(k)]
+    ts = [f"T{i}" for i in range(rng.randint(2, 4))]
+    attrs = ["#[derive(Debug)]"] if derive else []
+
+    def fs(syms):
+        if not syms:
+            return {"kind": "empty"}
+        return {"kind": "tuple", "fields": [{"used": rng.random() < 0.8, "sym": x} for x in syms]}
+
+    top = [sym_n(n) for n in nts]
+    if rng.random() < 0.8:
+        top.append(sym_t(rng.choice(ts)))
+    items = [{"kind": "start", "name": "Top"}, {"kind": "struct", "attrs": list(attrs), "name": "Top", "fieldset": fs(top)}]
+    for n in nts:
+        base = [sym_t(rng.choice(ts)) for _ in range(rng.randint(0 if rng.random() < 0.25 else 1, 2))]
+        alts = [base]
+        for _ in range(rng.randint(0, 2)):
+            ext = list(base) + [sym_t(rng.choice(ts)) for _ in range(rng.randint(1, 2))] if rng.random() < 0.7 else [sym_t(rng.choice(ts))]
+            if [sym_key(x) for x in ext] not in [[sym_key(x) for x in a] for a in alts]:
+                alts.append(ext)
+        if len(alts) == 1:
+            items.append({"kind": "struct", "attrs": list(attrs), "name": n, "fieldset": fs(alts[0])})
+        else:
+            items.append({"kind": "enum", "attrs": list(attrs), "name": n, "variants": [{"name": f"A{j}", "fieldset": fs(a)} for j, a in enumerate(alts)]})
+    items.append({"kind": "terminal", "attrs": list(attrs), "name": "Tok", "variants": [{"name": t, "type": "usize"} for t in ts]})
+    return items
+
+
 # ---- hand-written families that separate the grammar classes -------------------------------
 
 def _mk(start, structs_enums, terminals, derive=True):
